@@ -311,7 +311,11 @@ func buildUniverse() []*entry {
 		pol("default", f64(20), "has(a)", rs[10], rs[10], nil),
 		pol("t1", f64(2), "team == 'red' || role == 'web'", rs[11], nil, nil),
 		pol("default", f64(1), "has(team)", rs[12], rs[11], nil),
+		// INVALID: a RULE selector that does not parse (the rule scanner would panic on it if it got through)
+		pol("default", f64(10), "all()", []model.Rule{rule("allow", func(r *model.Rule) { r.SrcSelector = "has(" })}, nil, nil),
+		pol("default", f64(10), "a == 'x'", nil, []model.Rule{rule("deny", func(r *model.Rule) { r.DstSelector = "a == 'x'"; r.NotDstSelector = "b ==" })}, nil),
 	)
+	markInvalid("pol:gnp-b", 9, 10)
 	add("pol:np-c", model.PolicyKey{Name: "np-c", Namespace: "ns", Kind: v3.KindNetworkPolicy},
 		pol("default", f64(10), "has(a)", rs[5], rs[4], func(p *model.Policy) { p.Namespace = "ns" }),
 		pol("t2", nil, "!has(a)", rs[2], nil, func(p *model.Policy) { p.Namespace = "ns" }),
